@@ -183,7 +183,7 @@ pub fn run(tape: &[u8], cx: &Cx) -> Outcome {
                 }
             }
             Err(msg) => {
-                if !rx::is_overflow(&msg) {
+                if !rx::is_overflow(&msg, prog.max_loop_bound()) {
                     o.fail("C01/wrapper-panics", format!("wrappers panicked: {}", msg));
                 }
             }
